@@ -41,8 +41,87 @@ PROPS["C14"] = {
     ],
 }
 
-# properties not (yet) claimed; kept current by hand
-NOT_APPLICABLE = [
-    {"property_id": pid, "reason": "check under construction in this session - not yet claimed"}
-    for pid in ["C%02d" % i for i in range(1, 21)] if pid not in PROPS
+
+LIFE_ASSUME = [
+    "one driver goroutine is the only sender; batch geometry is fixed with gates (a receiver blocked in Receive), so the reference model (internal/life/sim.go) is exact",
+    "RestartDelay is 0; a panic inside a Stopped handler is not generated (it is outside the properties)",
+    "bounded waits (30 s) only ever yield 'inconclusive' (exit 2), never a verdict",
 ]
+
+PROPS["C04"] = {
+    "id": "C04", "level": "exploration",
+    "rule": "generated single-actor histories (sends, panicking sends, gates/releases that fix what is queued together, Stop, Poison, "
+            "respawn; planned panics in Initialized/Started; sends issued from inside Initialized and from a second goroutine while "
+            "Initialized runs) executed on the real engine; per incarnation the receiver trace must match "
+            "Initialized (Started msg*)? Stopped? with nothing after Stopped, agree with the reference model on which incarnations "
+            "exist / were started / ended, deliver spawn-time sends after Started, and have handled Started when Spawn returns.  "
+            "Non-trivial = history has >=1 stop request and >=1 crash, or a send issued before Started was handled.  Distinct = canonical JSON.",
+    "technique": "model-based property testing (rapid) of generated single-actor histories against a reference lifecycle model; vsched leg for Spawn||Send||Stop interleavings",
+    "level_text": "Generated-history search against an exact reference model of the lifecycle; schedules of the inbox hand-off are explored by the vsched leg. Sampling, not proof.",
+    "level_note": "trusts internal/life/sim.go as the reading of the property; single-driver histories (concurrency of senders is covered by the vsched leg and C01/C07 legs)",
+    "assumptions": LIFE_ASSUME,
+    "legs": [rapid("life", "c04", "TestLifecycle", 4000, 60000, shards=(2, 12))],
+}
+
+PROPS["C05"] = {
+    "id": "C05", "level": "fault_enumeration",
+    "rule": "generated single-actor histories in which every position of the panicking message inside a queued window, panics in "
+            "Initialized/Started of any incarnation, repeated failures inside the restart budget and failures during the replay of the "
+            "restart buffer occur; user deliveries (incarnation, id) must equal the reference model's (no loss, duplication, reordering, "
+            "no redelivery of the failing message, tail ahead of later sends), each failed incarnation ends with Stopped, a fresh receiver is "
+            "Initialized+Started, ActorRestartedEvent.Restarts counts 1..n, a bystander actor still answers.  "
+            "Non-trivial = failing message neither first nor last of its window, or >=2 failures, or a failure during replay.",
+    "technique": "fault-position enumeration + model-based property testing (rapid) against a reference restart/replay model",
+    "level_text": "Fault enumeration by generation: the crash point (position in batch, lifecycle handler, repetition, replay) is a generated input and the outcome is compared with an exact model.",
+    "level_note": "trusts internal/life/sim.go; restart delay 0 in the model-exact leg",
+    "assumptions": LIFE_ASSUME,
+    "legs": [rapid("life", "c05", "TestCrashReplay", 4000, 60000, shards=(2, 12))],
+}
+
+PROPS["C06"] = {
+    "id": "C06", "level": "fault_enumeration",
+    "rule": "complete enumeration of MaxRestarts 0..4 x 8 placements of the budget-exhausting panic (un-gated, first/middle/last of a queued "
+            "window, during replay, in Started, in Initialized, in Started after a restart) x 5 kinds of content queued behind it x {0,2} children, "
+            "plus generated histories; restarts <= budget, exactly one ActorMaxRestartsExceededEvent, actor and children stopped (children first) "
+            "and unregistered, later sends dead-letter exactly once with target/message/sender, the id can be respawned, a bystander still answers, "
+            "the test process survives (a dead process is a violation; the journaled case is the replay).  Non-trivial = the budget was exhausted.",
+    "technique": "complete fault enumeration over (budget, crash placement, queue content, children) + model-based property testing (rapid)",
+    "level_text": "The small fault space is enumerated completely (400 cases); generated histories extend it. Outcome compared with an exact model.",
+    "level_note": "trusts internal/life/sim.go; a panic inside a Stopped handler is not generated",
+    "assumptions": LIFE_ASSUME,
+    "legs": [plain("enum", "c06", "TestMaxRestartsEnum"),
+             rapid("life", "c06", "TestMaxRestarts", 3000, 50000, shards=(2, 12))],
+}
+
+PROPS["C07"] = {
+    "id": "C07", "level": "exploration",
+    "rule": "generated single-actor histories with Stop/Poison calls at generated positions of a queued window (gates), before/behind "
+            "panicking messages, for live, already stopped and respawned actors; a watcher goroutine per context records a global sequence number "
+            "at Done, reads the registry and sends a probe.  At Done: Stopped already handled, id unregistered, probe dead-letters (once) and is never "
+            "delivered, every message the model says is handled before the stop was handled earlier; which messages behind a pill are handled equals "
+            "the model (Poison drains its batch, Stop drops); no message of a foreign (engine-private) type reaches Receive or the middleware.  "
+            "Non-trivial = >=2 pills, or a pill with messages on both sides in one window, or a pill meeting a crash.  "
+            "While finding F7 is open, calls whose pill is not the stopping one are removed by construction and counted.",
+    "technique": "model-based property testing (rapid) with context watchers and dead-letter probes; open finding F7 excluded by construction",
+    "level_text": "Generated-history search against an exact model of drain/stop semantics; 'every caller is signalled' is checked for every pill the model says is effective or dead-on-arrival.",
+    "level_note": "trusts internal/life/sim.go; 'eventually done' is decided only once the actor is known to be stopped (5 s grace after ActorStoppedEvent was observed)",
+    "assumptions": LIFE_ASSUME + ["open finding F7 (second/later pills, pills pending at a max-restarts death) is excluded from generation and probed separately"],
+    "legs": [plain("known", "c07", "TestKnownF7"),
+             rapid("life", "c07", "TestStopPoison", 3000, 50000, shards=(2, 12))],
+}
+
+PROPS["C13"] = {
+    "id": "C13", "level": "exploration",
+    "rule": "generated single-actor histories with middleware chains of length 0..4 on all delivery paths (spawn, user message, crash, restart, "
+            "stop, poison, max-restarts); every receiver delivery must be bracketed by M0.in .. Mk-1.in and Mk-1.out .. M0.out (out or unwound by the panic), "
+            "each exactly once, all layers seeing the same message and sender as the receiver, user messages with the sender given at the send.  "
+            "Non-trivial = chain length >= 2 and the history contains a crash.",
+    "technique": "property-based testing (rapid) of generated histories with logging middleware; bracket-structure oracle over the totally ordered log",
+    "level_text": "Generated-history search; the oracle is a structural invariant over the delivery log.",
+    "level_note": "middleware functions are pure loggers; no claim about Context.Sender() during lifecycle messages",
+    "assumptions": LIFE_ASSUME,
+    "legs": [rapid("life", "c13", "TestMiddleware", 3000, 50000, shards=(2, 12))],
+}
+
+# reasons for properties that are not claimed (kept current by hand)
+NA_REASONS = {}
